@@ -7,8 +7,8 @@ import os
 from . import core, lpcases, solve
 
 SPEC_DIR = solve.SPEC_DIR
-LIMITS = [-1, 0, 1, 1_000, 10_000, 50_000, 100_000, 300_000, 1_000_000, 5_000_000]   # ns; -1 = none
-GAPS = [("none", 0, 1), ("num", 0, 1), ("num", 1, 1000), ("num", 1, 2), ("num", 10, 1), ("num", -1, 1), ("nan", 0, 1), ("inf", 0, 1), ("-inf", 0, 1)]
+LIMITS = [-1, 0, 1, 1_000, 10_000, 50_000, 100_000, 300_000, 1_000_000, 5_000_000, 2_000_000_000]   # ns; -1 = none; 2e9 stands for Duration::MAX
+GAPS = [("none", 0, 1), ("num", 0, 1), ("num", 1, 1000), ("num", 1, 20), ("num", 1, 5), ("num", 1, 2), ("num", 10, 1), ("num", -1, 1), ("nan", 0, 1), ("inf", 0, 1), ("-inf", 0, 1)]
 
 
 def opts_for(i, seed, builder_every=4):
@@ -55,6 +55,17 @@ def check(tier, seed, replay=None):
             cs, m = lpcases.family(cfg, "quick", seed, n, sim, module=("KnapGen.tla" if cfg.startswith("Knap") else "LpGen.tla"))
             meta[cfg[:-4]] = m
             cases += cs[:n]
+        # the same models again with a constant offset that moves the optimum close to zero: a relative gap
+        # is a statement about the user's objective, offset included
+        shifted = []
+        for c in cases:
+            big = sum(abs(x) for x in c["obj"])
+            if big and c["sense"] != "sat":
+                s_ = copy.deepcopy(c)
+                s_["id"] = c["id"] + "_off"
+                s_["off"] = (-1 if c["sense"] == "max" else 1) * int(0.8 * big)
+                shifted.append(s_)
+        cases += shifted
         for i, c in enumerate(cases):
             c["opts"] = opts_for(i, seed)
     # timing-sensitive: run sequentially on few processes so limits fire at varied points
